@@ -7,8 +7,13 @@ each kind) at planned instants inside the wait-before period and inside the drai
 completed / cut, exit time and status (killed by signal k = status -k).
 Compared with Model/Shutdown.v: accepted flags, completed flags and exit status EXACTLY, exit time within TOL.
 Flakiness policy: no retries. Scenarios keep every planned instant at least 150 ms away from every instant at which
-the outcome changes (listener close, Shutdown's poll windows incl. their 10 % jitter, the deadline); TOL covers
-scheduling noise and the poll jitter (at most 10 % of the offset, < 0.2 s here).
+the outcome changes (listener close, Shutdown's poll windows incl. their up-to-10 % jitter, the deadline), and no scenario
+depends on the deadline watchdog beating Shutdown's next possible poll by less than 250 ms; the known finding (drained, yet
+exit status 1) is demonstrated with a Shutdown timeout of 761 ms and a completion synchronised to the process's own close
+instant (>= 99 ms after the latest possible 10th poll, 99 ms before the deadline, 11th poll >= 250 ms after the deadline).
+Model/Shutdown.v:sd_robust judges every scenario; for a scenario that is not robust the comparison accepts either outcome
+(counted in the evidence as either_scenarios; none may occur in the quick tier). TOL covers scheduling noise and the poll
+jitter (at most 10 % of the offset, < 0.2 s here).
 Monitor: the property text on the observations alone.
 """
 from lib import vf
@@ -16,6 +21,10 @@ from lib import vf
 SEC = 10**9
 TOL = int(0.7 * SEC)       # tolerance on exit time (given in the design: Go's Shutdown polls up to every 500 ms)
 MARGIN = int(0.2 * SEC)    # distance from a boundary below which the monitor makes no claim
+LATE = int(0.1 * SEC)      # a scenario in which the DRIVER issued a request or sent a signal more than this long after the planned
+#                            instant was not realised as planned (machine overloaded): it is set aside (counted), not judged
+DRAIN_MARGIN = int(0.08 * SEC)   # "exits successfully as soon as they have": claimed when every accepted request was OBSERVED to
+#                                  complete and was planned to do so at least this long before the end of the graceful period
 TERMINATION = {1: "SIGHUP", 2: "SIGINT", 3: "SIGQUIT", 15: "SIGTERM"}   # "a termination signal" (those a process can act on)
 
 
@@ -36,10 +45,11 @@ def parse(infile, implfile, modelfile):
             svc = [int(x) for x in rest[1].split()]
             sig_at = [int(x) for x in rest[2].split()] if len(rest) > 3 else [0]
             sig_kind = [int(x) for x in rest[3].split()] if len(rest) > 3 else [15]
+            sync = [int(x) for x in rest[4].split()] if len(rest) > 4 else [0] * len(arr)
             n = len(arr)
             m = [int(x) for x in lm.split()]
             base = {"input": li.strip(), "impl": la.strip(), "model": lm.strip(), "W": W, "G": G, "arr": arr, "svc": svc,
-                    "sig_at": sig_at, "sig_kind": sig_kind, "m_started": m[0]}
+                    "sig_at": sig_at, "sig_kind": sig_kind, "sync": sync, "m_started": m[0], "robust": True}
             if la.startswith("R"):
                 base.update({"refused": True, "ref_class": int(la.split()[1])})
                 rows.append(base)
@@ -51,8 +61,12 @@ def parse(infile, implfile, modelfile):
             acc = [int(x) for x in a[1].split()]
             comp = [int(x) for x in a[2].split()]
             ends = [int(x) for x in a[3].split()]
+            starts = [int(x) for x in a[4].split()] if len(a) > 4 else arr
+            sent = [int(x) for x in a[5].split()] if len(a) > 5 else sig_at
+            late = max([abs(x - y) for x, y in zip(starts, arr)] + [abs(x - y) for x, y in zip(sent, sig_at)] + [0])
             rows.append({"input": li.strip(), "impl": la.strip(), "model": lm.strip(), "W": W, "G": G, "arr": arr, "svc": svc,
-                         "sig_at": sig_at, "sig_kind": sig_kind, "refused": False, "m_started": 0 if model_refused_only else 1, "model_refused_only": model_refused_only,
+                         "sig_at": sig_at, "sig_kind": sig_kind, "sync": sync, "robust": (m[4 + 2 * n] == 1) if len(m) > 4 + 2 * n else True,
+                         "driver_late_ns": late, "starts": starts, "refused": False, "m_started": 0 if model_refused_only else 1, "model_refused_only": model_refused_only,
                          "exit": exit_ns, "code": exit_code, "acc": acc, "comp": comp, "ends": ends,
                          "m_close": m[0], "m_deadline": m[1], "m_exit": m[2], "m_code": m[3],
                          "m_acc": m[4:4 + n], "m_comp": m[4 + n:4 + 2 * n]})
@@ -61,6 +75,8 @@ def parse(infile, implfile, modelfile):
 
 def compare(ctx, rows, name):
     mism = []
+    either = []
+    missed = []
     for i, r in enumerate(rows):
         why = []
         if r.get("refused") or r.get("model_refused_only"):
@@ -74,6 +90,14 @@ def compare(ctx, rows, name):
             if why:
                 mism.append({"index": i, "input": r["input"], "impl": r["impl"], "model": r["model"], "why": why})
             continue
+        if r["driver_late_ns"] > LATE:
+            missed.append({"index": i, "input": r["input"], "impl": r["impl"], "driver_late_ms": r["driver_late_ns"] // 10**6})
+            continue
+        if not r["robust"]:
+            # an outcome of this scenario hinges on the order of two instants that are too close (Model/Shutdown.v:sd_robust):
+            # either outcome is accepted
+            either.append({"index": i, "input": r["input"], "impl": r["impl"], "model": r["model"]})
+            continue
         if r["acc"] != r["m_acc"]:
             why.append("accepted flags")
         if r["comp"] != r["m_comp"]:
@@ -84,8 +108,21 @@ def compare(ctx, rows, name):
             why.append("exit time differs by %.2f s" % ((r["exit"] - r["m_exit"]) / SEC))
         if why:
             mism.append({"index": i, "input": r["input"], "impl": r["impl"], "model": r["model"], "why": why})
-    rec = {"name": name, "cases": len(rows), "mismatches": len(mism),
-           "note": "flags and exit status exact; exit time within %.1f s" % (TOL / SEC)}
+    rec = {"name": name, "cases": len(rows), "mismatches": len(mism), "either_scenarios": len(either),
+           "note": "flags and exit status exact; exit time within %.1f s; either_scenarios = scenarios not robust against timing noise "
+                   "(sd_robust = false), for which either outcome is accepted" % (TOL / SEC)}
+    ctx.extra["either_scenarios"] = len(either)
+    ctx.extra["scenarios_set_aside_because_the_driver_missed_its_schedule"] = len(missed)
+    if missed:
+        rec["driver_missed_schedule"] = missed[:5]
+        if 10 * len(missed) > len(rows):
+            raise vf.InfraError("C19: the real-time driver missed its own schedule by more than %d ms in %d of %d scenarios: the machine is too "
+                                "loaded for a real-time check" % (LATE // 10**6, len(missed), len(rows)))
+    if either:
+        rec["first_either"] = either[:5]
+        if ctx.tier == "quick":
+            ctx.broken.append({"kind": "correspondence", "name": name + ": a quick-tier scenario is not robust against timing noise",
+                               "first": either[0], "count_shown": len(either)})
     if mism:
         rec["first_mismatches"] = mism[:5]
         ctx.broken.append({"kind": "correspondence", "name": name, "first": mism[0], "count_shown": len(mism)})
@@ -115,6 +152,9 @@ def monitor(ctx, rows, notes):
         # the property speaks about termination signals; a scenario that also sends a signal no process can act on
         # (SIGKILL: the driver's control that a killed process is observed as such) is outside it
         if any(k not in TERMINATION for k in r["sig_kind"]):
+            continue
+        # the driver did not realise the scenario as planned (it was itself more than LATE behind schedule): no claim
+        if r["driver_late_ns"] > LATE:
             continue
         nsig = len(r["sig_kind"])
         more = "" if nsig == 1 else " (%d termination signals were sent: %s)" % (
@@ -149,7 +189,7 @@ def monitor(ctx, rows, notes):
             if acc:
                 fins.append(a + d)
         # exits successfully as soon as they have
-        if all(c for c, acc in zip(r["comp"], r["acc"]) if acc) and all(f <= G - MARGIN for f in fins):
+        if all(c for c, acc in zip(r["comp"], r["acc"]) if acc) and all(f <= G - DRAIN_MARGIN for f in fins):
             last = max([W] + fins)
             if r["code"] != 0:
                 # (status 1 = the log.Fatalf of the deadline watcher; a process that was killed by a signal, or failed in another
@@ -182,7 +222,7 @@ def run(ctx):
         if i % 3 == 0:
             ctx.samples.append({"scenario": notes[i].split("\t")[0], "input": r["input"], "impl": r["impl"], "model": r["model"]})
     ctx.rule = ("(wait-before, graceful) in {(0,1s),(0.5s,2s),(1s,3s)} x in-flight request finishing {before the signal, just after the "
-                "listener closes, late but noticed by a poll, after the last poll before the deadline, after the deadline} x a request "
+                "listener closes, late but noticed by a poll, [with graceful = wait-before + 761 ms] after the last poll before the deadline, after the deadline} x a request "
                 "arriving during the wait-before period x a connection attempt after it; an idle scenario per setting; one scenario with a "
                 "negative wait-before; further signals: (wait-before, graceful) in {(0,2s),(0.5s,2s),(1s,3s)} x first signal rotating over TERM/HUP/INT/QUIT x "
                 "second signal of each of the four kinds {inside the wait-before period, inside the drain (every other kind followed by a third), "
@@ -200,7 +240,10 @@ def run(ctx):
         "c19_first_signal_only: the model's outcome does not depend on further registered signals",
         "hijacked connections (WebSocket upgrades) are not tracked by Shutdown and are outside the model",
         "real-time comparison: flags and exit status exact, exit time within 0.7 s; no retries; planned instants are kept >= 150 ms away from "
-        "every instant at which the outcome changes (listener close, poll windows with jitter, deadline)",
+        "every instant at which the outcome changes (listener close, poll windows with jitter, deadline); no scenario depends on the deadline beating "
+        "the next possible poll by < 250 ms; the known finding is shown with Shutdown timeout 761 ms and a completion synchronised to the close instant "
+        "the process logs (margins 99 / 99 / 250 ms); Model/Shutdown.v:sd_robust judges each scenario, scenarios that are not robust are compared "
+        "accepting either outcome (either_scenarios in the evidence, 0 required in the quick tier)",
         "0 <= W < G is guaranteed by Config.Validate since fix 164dd13 (C20: c20_starts_periods; c19_exit_within_graceful_when_started); "
         "scenarios with W < 0 or G <= W are observed as refusals at start-up and compared with sd_startable",
     ]
